@@ -5,4 +5,5 @@ import Librfn.Props.C18
 import Librfn.Props.C18Tie
 import Librfn.Props.C09
 import Librfn.Props.C19
+import Librfn.Props.C05
 import Librfn.Props.C20
